@@ -414,3 +414,47 @@ contract(
     returns="Tuple(Any,Any,Int)",
     ensures=["result[2] >= 1"],
 )
+
+# ---- the values of the stopping criteria (real body of
+# ---- compute_stopping_criterion): the evidence-change criterion is the
+# ---- ABSOLUTE change of the log-evidence since the previous iteration
+# ---- (infinite before the first), and the returned list holds the
+# ---- configured criteria in the configured order
+shape("OSRatioAbs", {}, methods={
+    "compute_evidence_ratio": Contract(
+        "<abstract>", "OSRatioAbs.compute_evidence_ratio",
+        params={"ns_only": "Bool"}, trusted=True,
+        trusted_reason="evidence ratio (a number)", returns="Real")})
+shape("INSCriteria", {
+    "iteration": "Int", "log_evidence": "Real", "log_evidence_error": "Real",
+    "history": "Dict(logZ:List(Real))",
+    "_ordered_samples": "Obj(OSRatioAbs)", "state": "Obj(INSStateCrit)",
+    "stopping_criterion": "PyConst(['log_dZ', 'ratio'])",
+    "tolerance": "Any",
+}, cls="ImportanceNestedSampler")
+shape("INSStateCrit", {"effective_n_posterior_samples": "Real",
+                       "evidence_error": "Real", "evidence": "Real"},
+      methods={"compute_evidence_ratio": Contract(
+          "<abstract>", "INSStateCrit.compute_evidence_ratio",
+          params={"ns_only": "Bool"}, trusted=True,
+          trusted_reason="evidence ratio (a number)", returns="Real")})
+_LASTZ = "self.history['logZ'][len(self.history['logZ']) - 1]"
+contract(
+    INS, "ImportanceNestedSampler.compute_stopping_criterion",
+    variant_name="real", props=["C15"], self_shape="INSCriteria",
+    ident_name="ImportanceNestedSampler.compute_stopping_criterion#real",
+    requires=["implies(self.iteration > 0, len(self.history['logZ']) >= 1)",
+              "self.state.evidence != 0"],
+    modifies=["self.log_dZ", "self.ratio", "self.ratio_ns", "self.ess",
+              "self.Z_err", "self.fractional_error"],
+    returns="Any",
+    ensures=[
+        "implies(self.iteration > 0, self.log_dZ >= 0 and "
+        f"(self.log_dZ == self.log_evidence - {_LASTZ} or "
+        f"self.log_dZ == {_LASTZ} - self.log_evidence))",
+        "implies(self.iteration <= 0, self.log_dZ == INF)",
+        # the configured criteria, in the configured order
+        "len(result) == 2 and result[0] == self.log_dZ and "
+        "result[1] == self.ratio",
+    ],
+)
